@@ -1,8 +1,143 @@
 import Flatland.JsonUtil
+import Flatland.C18
+import Flatland.Run.C04
 open Lean Flatland.J
 namespace Flatland.Run.C18
+open Flatland.Scalar Flatland.C18 Flatland.Run.C04
 
-/-- JSON case in, JSON observation out (stub until the model of C18 is written). -/
-def run (_j : Json) : Except String Json := .error "model runner for C18 not implemented yet"
+def parsePairs (j : Json) : Except String (List (List Char × List Char)) := do
+  (← arr j).mapM fun p => do
+    match (← arr p) with
+    | [a, b] => return (← chars a, ← chars b)
+    | _ => throw "bad pair"
+
+def retJson : Option Bool → Json
+  | none => Json.null
+  | some b => Json.bool b
+
+def membersJson (ms : List SState) : Json := ofList stateJson ms
+
+def excObj (name : String) : Json := obj [("exc", Json.str name)]
+
+/-- run a history; stop at the first operation that raises -/
+def runOps {σ op} (steps : σ → op → Except String (σ × Json)) (obsErr : String → Json) :
+    σ → List op → List Json → List Json
+  | _, [], acc => acc.reverse
+  | s, o :: rest, acc =>
+    match steps s o with
+    | .ok (s', j) => runOps steps obsErr s' rest (j :: acc)
+    | .error e => (obsErr e :: acc).reverse
+
+def parseDateOp (j : Json) : Except String DateOp := do
+  match (← sfld j "op") with
+  | "set" => return .set (← parseNative (← fld j "x"))
+  | "member" => return .member (← nfld j "i") (← parseNative (← fld j "x"))
+  | "setflat" => return .setFlat (← parsePairs (← fld j "pairs"))
+  | o => throw s!"bad date op {o}"
+
+def dateObs (E : Env) (s : DateState) (ret : Option Bool) : Json :=
+  match s.compose E with
+  | .ok (u, v) => obj [("exc", Json.null), ("ret", retJson ret), ("u", ofText u), ("value", ofNative v),
+                       ("members", membersJson [s.y, s.m, s.d])]
+  | .error e => obj [("exc", Json.null), ("ret", retJson ret), ("u", Json.str (raiseName e)),
+                     ("value", Json.str (raiseName e)), ("members", membersJson [s.y, s.m, s.d])]
+
+def runDate (j : Json) : Except String Json := do
+  let E ← envOf j
+  let ops ← (← afld j "ops").mapM parseDateOp
+  let c : DateCfg ← match j.getObjVal? "members" with
+    | .ok mj => if isNull mj then pure ({} : DateCfg) else do
+        match (← arr mj) with
+        | [a, b, d] => pure { ky := ← parseKind (← fld a "kind"), km := ← parseKind (← fld b "kind"), kd := ← parseKind (← fld d "kind"),
+                              ny := ← cfld a "name", nm := ← cfld b "name", nd := ← cfld d "name" }
+        | _ => throw "bad members"
+    | .error _ => pure ({} : DateCfg)
+  let start : DateState := ⟨Flatland.C04.blankState, Flatland.C04.blankState, Flatland.C04.blankState⟩
+  let steps := runOps (fun (s : DateState) o => match s.step E c o with
+      | .ok (s', ret) => .ok (s', dateObs E s' ret)
+      | .error e => .error (craiseName e)) excObj start ops []
+  return obj [("steps", Json.arr steps.toArray)]
+
+def parseSplitter (j : Json) : Except String Splitter := do
+  match j with
+  | .str "static" => pure .static
+  | .str "commaws" => pure .commaWs
+  | o => do pure (.anyOf (← cfld o "anyof"))
+
+def parseJoinedOp (name : List Char) (j : Json) : Except String JoinedOp := do
+  match (← sfld j "op") with
+  | "set" => return .set (← parseInput (← fld j "x"))
+  | "member" => return .member (← nfld j "i") (← parseNative (← fld j "x"))
+  | "append" => return .append (← parseNative (← fld j "x"))
+  | "del" => return .delete (← nfld j "i")
+  | "setflat" => return .setFlat (← parsePairs (← fld j "pairs")) name
+  | o => throw s!"bad joined op {o}"
+
+def runJoined (j : Json) : Except String Json := do
+  let E ← envOf j
+  let cj ← fld j "cfg"
+  let c : JoinedCfg := { sep := ← cfld cj "sep", sp := ← parseSplitter (fldD cj "splitter" (Json.str "static")),
+                         prune := ← bfld cj "prune", member := ← parseKind (← fld cj "member") }
+  let name ← cfld j "name"
+  let ops ← (← afld j "ops").mapM (parseJoinedOp name)
+  let steps := runOps (fun (s : JoinedState) o => match c.step E s o with
+      | .ok (s', ret) => .ok (s', obj [("exc", Json.null), ("ret", retJson ret), ("value", ofText (joinedValue c s')),
+                                      ("members", membersJson s')])
+      | .error e => .error (craiseName e)) excObj [] ops []
+  return obj [("steps", Json.arr steps.toArray)]
+
+def parseMultiOp (name sep : List Char) (prune : Bool) (j : Json) : Except String MultiOp := do
+  match (← sfld j "op") with
+  | "set" => return .set (← parseInput (← fld j "x"))
+  | "member" => return .member (← nfld j "i") (← parseNative (← fld j "x"))
+  | "append" => return .append (← parseNative (← fld j "x"))
+  | "insertfront" => return .insertFront (← parseNative (← fld j "x"))
+  | "del" => return .delete (← nfld j "i")
+  | "setflat" => return .setFlat (← parsePairs (← fld j "pairs")) name sep prune
+  | o => throw s!"bad multi op {o}"
+
+def runMulti (j : Json) : Except String Json := do
+  let E ← envOf j
+  let k ← parseKind (← fld j "kind")
+  let name ← cfld j "name"
+  let ops ← (← afld j "ops").mapM (parseMultiOp name ['_'] (← bfld j "prune"))
+  let steps := runOps (fun (s : MultiState) o => match multiStep E k s o with
+      | .ok (s', ret) => .ok (s', obj [("exc", Json.null), ("ret", retJson ret), ("u", ofText (multiU s')),
+                                      ("value", ofNative (multiValue s')), ("members", membersJson s')])
+      | .error e => .error (craiseName e)) excObj [] ops []
+  return obj [("steps", Json.arr steps.toArray)]
+
+def parseRefOp (j : Json) : Except String RefOp := do
+  match (← sfld j "op") with
+  | "tset" => return .targetSet (← parseNative (← fld j "x"))
+  | "subset" => return .subSet (← parseNative (← fld j "x"))
+  | "read" => return .read
+  | "rset" => return .refSet (← parseNative (← fld j "x"))
+  | o => throw s!"bad ref op {o}"
+
+def runRef (j : Json) : Except String Json := do
+  let E ← envOf j
+  let k ← parseKind (← fld j "kind")
+  let w ← match (← sfld j "writable") with
+    | "ignore" => pure Writable.ignore | "yes" => pure Writable.yes | "no" => pure Writable.no
+    | s => throw s!"bad writable {s}"
+  let ops ← (← afld j "ops").mapM parseRefOp
+  let start : RefState := ⟨Flatland.C04.blankState, .unresolved⟩
+  let steps := runOps (fun (s : RefState) o => match s.step E k w o with
+      | .ok (s', ret, rd) =>
+        .ok (s', obj [("exc", Json.null), ("ret", retJson ret),
+                      ("read", match rd with | some (v, u) => Json.arr #[ofNative v, ofText u] | none => Json.null),
+                      ("t", stateJson s'.t)])
+      | .error .typeError => .error "TypeError"
+      | .error (.scalar e) => .error (raiseName e)) excObj start ops []
+  return obj [("steps", Json.arr steps.toArray)]
+
+def run (j : Json) : Except String Json := do
+  match (← sfld j "sub") with
+  | "date" => runDate j
+  | "joined" => runJoined j
+  | "multi" => runMulti j
+  | "ref" => runRef j
+  | m => throw s!"bad sub {m}"
 
 end Flatland.Run.C18
